@@ -51,6 +51,7 @@ def run(rep):
         rep.sample({"rows": o["shapes"], "outcome": o["res"]["status"], "message": o["res"].get("message"), "trace_events": len(o["trace"])})
     _rp.run_canaries(rep, PROP, sub, acc)
     part_histories(rep)
+    _rp.corpus_part(rep, PROP)
     if rep.tier == "thorough":
         _rp.suite_part(rep, PROP)
 
